@@ -3998,3 +3998,38 @@ def t_y_kept_for_high(facts, res, tier):
         break
     if n == 0:
         raise AnchorMissing("generate_expr: no restore of the parked Y before the second pass of an assignment")
+
+
+@rule("T-DECL-SIZE-KEPT", floor=3,
+      text="a declaration may give the size of an array (`char s[10] = ..`).  Wherever compile_var_decl replaces `size` by the length of the "
+           "initialiser it has just read (`size = Some(v.len())`), the declared size has been looked at first: an earlier statement of the same "
+           "block opens `size` (`if let Some(s) = size`) and compares it with that length (refusing, or padding, when they differ).  Otherwise "
+           "`const char s[10] = \"abc\"` silently becomes a 4-byte array: `sizeof(s)` is 4 and `s[7]` reads what follows the table")
+def t_decl_size_kept(facts, res, tier):
+    n = 0
+    for fn in facts.fns:
+        if not fn["file"].endswith("/compile.rs") or fn.get("test") or fn["name"] != "compile_var_decl":
+            continue
+        for b in walk(fn["body"]):
+            if b.get("k") != "block":
+                continue
+            st = b.get("stmts", [])
+            for i, s in enumerate(st):
+                if not (s.get("k") == "assign" and expr_text(s["l"]).replace(" ", "") == "size"):
+                    continue
+                m = re.fullmatch(r"Some\((\w+)\.len\(\)\)", expr_text(s["r"]).replace(" ", ""))
+                if not m:
+                    continue
+                vec = m.group(1)
+                n += 1
+                key = "T-DECL-SIZE-KEPT:compile_var_decl:%s#%d" % (vec, n)
+                looked = False
+                for e in st[:i]:
+                    if e.get("k") == "if" and e["cond"].get("k") == "letcond" and expr_text(e["cond"]["e"]).replace(" ", "") == "size" and pat_text(e["cond"]["pat"]).replace(" ", "").startswith("Some("):
+                        if ("%s.len()" % vec) in expr_text(e["then"]).replace(" ", ""):
+                            looked = True
+                res.inst(key, True, {"initialiser": vec, "declared_size_compared_first": looked, "where": facts.where(fn, s)})
+                if not looked:
+                    res.fail("T-DECL-SIZE-KEPT:compile_var_decl:%s" % vec, facts.where(fn, s), "compile_var_decl replaces the declared size by `%s.len()` without having compared the two: an initialiser shorter (or longer) than the declared array silently changes its size" % vec)
+    if n == 0:
+        raise AnchorMissing("compile_var_decl: no `size = Some(<v>.len())` found")
